@@ -11,12 +11,10 @@
 //! `TerminateGuard` alive.
 //!
 //! Note that scope can get canceled even if `CancelGuard` is still alive.
-use std::sync::Arc;
 #[cfg(not(era_consensus_verif))]
-use std::sync::Mutex;
-
+use std::sync::{Arc, Mutex};
 #[cfg(era_consensus_verif)]
-use crate::verif::sync_shim::Mutex;
+use {crate::verif::sync_shim::Mutex, std::sync::Arc};
 
 use crate::{ctx, signal};
 
